@@ -63,7 +63,10 @@ def pre_build(ctx):
     """Regenerates coq/Gen/Access.v from the Go sources of checklib.REPO."""
     os.makedirs(os.path.join(checklib.HARNESS, "bin"), exist_ok=True)
     gotab = os.path.join(checklib.HARNESS, "bin", "gotab")
-    rc, out = checklib.run(["go", "build", "-o", gotab, "./cmd/gotab"], cwd=checklib.HARNESS, env=checklib.GOENV, timeout=600)
+    src = os.path.join(checklib.HARNESS, "cmd", "gotab", "main.go")
+    rc, out = 0, ""
+    if not os.path.exists(gotab) or os.path.getmtime(gotab) < os.path.getmtime(src):
+        rc, out = checklib.run(["go", "build", "-o", gotab, "./cmd/gotab"], cwd=checklib.HARNESS, env=checklib.GOENV, timeout=600)
     if rc == 0:
         rc, out = checklib.run([gotab, "-repo", checklib.REPO, "-out", GEN], cwd=checklib.HARNESS, env=checklib.GOENV, timeout=300)
     if rc != 0:
